@@ -433,6 +433,30 @@ fn ransac_case(case: &Case, l: &mut Local) {
             l.check("RANSAC returns a circle", "", false, mk, || format!("{:?}", other.map(|r| r.map(|c| c.r()))));
         }
     }
+    // contamination that is itself a circle with MORE points than the generating one, but outside the radius limits
+    for (ro, lo, hi) in [(6.0 * r, None, Some(2.0 * r)), (0.4 * r, Some(0.7 * r), None)] {
+        l.eval();
+        let nbig = 2 * nin;
+        let mut both: Vec<Point2> = Vec::new();
+        for i in 0..nbig {
+            let a = 0.11 + std::f64::consts::TAU * i as f64 / nbig as f64;
+            both.push(Point2::new(cx + 0.3 * r + ro * a.cos(), cy - 0.2 * r + ro * a.sin()));
+            if i % 2 == 0 {
+                both.push(pts[i / 2]);
+            }
+        }
+        l.bucket("RANSAC against a better supported circle outside the radius limits");
+        let inl2 = |c: &Circle2| both.iter().filter(|p| c.distance_to(p).abs() < tol).count();
+        match guarded(|| Circle2::ransac(&both, tol, Some(500), lo, hi).map_err(|e| e.to_string())) {
+            Ok(Ok(c)) => {
+                let within = lo.map(|x| c.r() >= x).unwrap_or(true) && hi.map(|x| c.r() <= x).unwrap_or(true);
+                l.check("the RANSAC circle has at least as many inliers as the generating circle", "competing circle outside the limits", within && inl2(&c) >= inl2(&gen), mk, || format!("limits {:?}..{:?}: r {} with {} inliers against {} on the generating circle", lo, hi, c.r(), inl2(&c), inl2(&gen)));
+            }
+            other => {
+                l.check("RANSAC returns a circle", "competing circle outside the limits", false, mk, || format!("limits {:?}..{:?}: {:?}", lo, hi, other.map(|r| r.map(|c| c.r()))));
+            }
+        }
+    }
     // the exactly determined case, and orders in which only a triple containing the last point can succeed
     {
         let (a, b, c) = (pts[0], pts[nin / 3], pts[2 * nin / 3]);
